@@ -79,6 +79,52 @@ def handle : Handler := fun j => do
             | some v => pairToJson (inv.apply p v f)).toArray)]
     pure (Json.mkObj [("dump", dumpTable m.map), ("noReinstall", dumpTable m.noReinstall),
                       ("applied", Json.arr (fwd.map pairToJson).toArray), ("inverse", invJ)])
+  | "tagseq" =>
+    -- a sequence of operations on two live TaggedProductList objects A and B
+    let mut ta := TagList.empty (← jstr j "tag") (← jstrOpt j "flavorA")
+    let mut tb := TagList.empty (← jstr j "tag") (← jstrOpt j "flavorB")
+    let mut out : Array Json := #[]
+    let rows := fun (t : TagList) => Json.arr (t.getProducts.map ofStrs).toArray
+    for o in (← jarr j "ops") do
+      let k ← (← o.getObjVal? "op").getStr?
+      let onA := (← (← o.getObjVal? "on").getStr?) == "A"
+      if k == "add" then
+        let f := fun (t : TagList) (p v : Str) (fl : Option Str) (ex : List Str) => t.addProduct p v fl ex
+        let p ← jstr o "product"; let v ← jstr o "version"; let fl ← jstrOpt o "flavor"; let ex ← jstrs o "extra"
+        if onA then ta := f ta p v fl ex else tb := f tb p v fl ex
+        out := out.push Json.null
+      else if k == "delete" then
+        let p ← jstr o "product"
+        if onA then ta := ta.deleteProduct p else tb := tb.deleteProduct p
+        out := out.push Json.null
+      else if k == "merge" then
+        let before := rows ta
+        ta := ta.mergeProductList tb
+        out := out.push (Json.mkObj [("before", before), ("other", rows tb), ("after", rows ta)])
+      else if k == "get" then
+        if (← jbool o "sort") then
+          if onA then ta := ta.sortInPlace else tb := tb.sortInPlace
+        out := out.push (rows (if onA then ta else tb))
+      else if k == "info" then
+        let t := if onA then ta else tb
+        let i : Json := match t.getProductInfo (← jstr o "product") with
+          | none => Json.arr #[Json.null, Json.null]
+          | some i => ofStrs i
+        out := out.push (Json.mkObj [("info", i), ("rows", rows t)])
+      else if k == "roundtrip" then
+        let text := ta.write (← jstrOpt o "writeFlavor") []
+        let into := (← (← o.getObjVal? "into").getStr?)
+        let before := rows tb
+        let tagS ← jstr j "tag"
+        let rf ← jstrOpt o "readFlavor"
+        let reader := if into == "B" then tb else TagList.empty tagS rf
+        match reader.read text with
+        | .error e => out := out.push (Json.mkObj [("written", rows ta), ("error", errName e)])
+        | .ok r =>
+          if into == "B" then tb := r
+          out := out.push (Json.mkObj [("written", rows ta), ("before", before), ("read", rows r)])
+      else throw s!"tagseq: unknown op {k}"
+    pure (Json.mkObj [("out", Json.arr out)])
   | "mapseq" =>
     -- a sequence of operations on ONE live Mapping: add / merge (a fresh mapping built from `adds`) / inverse / apply
     let mut m : Mapping := {}
